@@ -1430,7 +1430,9 @@ class Request:
         """
         self.code = code
         if message is not None:
-            self.code_message = message
+            # The reason phrase is written verbatim into the status line:
+            # line breaks in it would start new header lines.
+            self.code_message = _sanitizeLinearWhitespace(message)
         else:
             self.code_message = RESPONSES.get(code, b"Unknown Status")
 
